@@ -626,6 +626,20 @@ def isExactOpnd : Opnd → Bool
   | .num (.dec _ _) => true
   | _ => false
 
+/-! ### empty-sequence operands: `get_operands` / `get_argument` return `None` -/
+
+/-- binary operators: `if op1 is None: return []` (get_operands yields (None, None) when either operand is
+empty); `idiv` raises XPST0005 instead (`if op1 is None or op2 is None: raise self.error('XPST0005')`) -/
+def modelBinE (R : Rounding) (v : Ver) (op : BinOp) (a b : Option Num) : Except Err (Option Num) :=
+  match a, b with
+  | some x, some y => (modelBin R v op x y).map some
+  | _, _ => if op = .idiv then throw .XPST0005 else pure none
+
+/-- unary minus/plus and the functions: `return [] if arg is None` (XPath 2.0+) -/
+def modelUnE (R : Rounding) (v : Ver) (op : UnOp) : Option Num → Option Num
+  | some x => some (modelUn R v op x)
+  | none => none
+
 /-! ### call sites evaluated repeatedly (`for $a in …, $b in … return $a op $b`, one parsed token re-evaluated
 with other variables, a function item called again): the model of a call site is a function of its
 arguments only — no state is carried on the token between evaluations -/
